@@ -347,6 +347,8 @@ int main(int argc, char *argv[])
     if (asm_context.list == NULL)
     {
       printf("\nError: Couldn't open %s for writing.\n\n", filename);
+      fclose(asm_context.tokens.in);
+      unlink(outfile);
       exit(1);
     }
 
